@@ -34,7 +34,7 @@ class ReadElementStatus(SCSICommand):
     _cdb_bits = {
         "opcode": [0xFF, 0],
         "voltag": [0x10, 1],
-        "element_type": [0x07, 1],
+        "element_type": [0x0F, 1],
         "starting_element_address": [0xFFFF, 2],
         "num_elements": [0xFFFF, 4],
         "curdata": [0x02, 6],
